@@ -501,6 +501,53 @@ def step (line : String) : String :=
       match metaRef f c with
       | some want => answer want (impl == want)
       | none => "bad-op"
+    | ["freqofetch", g, form] =>
+      let parsed : Option (List (String × List Int)) :=
+        if form == "nil" || form == "empty" then some [] else (splitD form "|").mapM fun (t : String) =>
+          match t.splitOn ":" with
+          | [n, ps] => do let ps ← (splitD ps ".").mapM (·.toInt?); pure (n, ps)
+          | _ => none
+      match parsed with
+      | some topics =>
+        let showTs (ts : List (String × List Int)) : String :=
+          dash ("|".intercalate ((sortBy (fun a b => a.1 < b.1) ts).map fun (n, ps) =>
+            s!"{n}:{dash (".".intercalate (ps.map toString))}"))
+        let (grp, asked) := KV.Mappings.offsetFetchRequest g topics
+        let model := s!"{grp};{match asked with | none => "NULL" | some ts => showTs ts}"
+        -- reference: the group as given; no topic named = NULL (all topics of the group), otherwise exactly the listing
+        let want := s!"{g};{if topics.isEmpty then "NULL" else showTs topics}"
+        answer model (impl == want)
+      | none => "bad-op"
+    | ["freqocommit", gen, mem, inst, form] =>
+      let parsed : Option (List (String × List (Int × Int × String))) := (splitD form "|").mapM fun (t : String) =>
+        match t.splitOn ":" with
+        | [n, ps] => do
+          let ps ← (splitD ps ",").mapM fun (p : String) =>
+            match p.splitOn "/" with
+            | [a, o, m] => do let a ← a.toInt?; let o ← o.toInt?; pure (a, o, m)
+            | _ => none
+          pure (n, ps)
+        | _ => none
+      match parsed, gen.toInt? with
+      | some topics, some gen =>
+        let req := KV.Mappings.offsetCommitRequest "g" gen mem inst topics 1
+        let showTs (ts : List (String × List (Int × Int × String))) : String :=
+          dash ("|".intercalate ((sortBy (fun a b => a.1 < b.1) ts).map fun (n, ps) =>
+            s!"{n}:{",".intercalate (ps.map fun (p, o, m) => s!"{p}/{o}/{m}")}"))
+        let model := s!"{req.group};{req.generation};{req.member};{req.instance_};{req.retentionMs};{showTs (req.topics.map fun (n, ps) => (n, ps.map fun p => (p.index, p.offset, p.metadata)))}"
+        let want := s!"g;{gen};{mem};{inst};86400000;{showTs topics}"
+        answer model (impl == want)
+      | _, _ => "bad-op"
+    | ["freqlo", iso, r] =>
+      match parseReq r, iso.toInt? with
+      | some ts, some iso =>
+        let req := clientRequest iso ts
+        let showT (ts : List (String × List (Int × Int × Int))) : String :=
+          dash ("|".intercalate (ts.map fun (n, ps) => s!"{n}:{dash (",".intercalate (ps.map fun (p, e, t) => s!"{p}/{e}/{t}"))}"))
+        let model := s!"{req.replicaID};{req.isolation};{showT (req.topics.map fun (n, ps) => (n, ps.map fun p => (p.partition, p.leaderEpoch, p.timestamp)))}"
+        let want := s!"-1;{iso};{showT (ts.map fun (n, ps) => (n, ps.map fun (p, t) => (p, (-1 : Int), t)))}"
+        answer model (impl == want)
+      | _, _ => "bad-op"
     | ["flo", r, resp] =>
       -- Client.ListOffsets on a given merged response: the model's init + fold; the monitor checks, per requested
       -- partition, that the record reports only offsets / errors the response holds for that partition
